@@ -598,21 +598,17 @@ pub fn has_hook(query: &Value) -> bool {
   matches!(query["type"].as_str(), Some("function_score") | Some("constant_score") | Some("rank_feature") | Some("script_score"))
 }
 
-/// are scores computed for this request (`ScoreMode::Score`)?  Otherwise every hit carries 0.
-pub fn scores_computed(req: &Value) -> bool {
-  plan_json(&req["sort"]).as_array().map(|a| a.iter().any(|p| p["f"] == "score")).unwrap_or(false) || has_hook(&req["query"]) || req["explain"].as_bool().unwrap_or(false)
+/// the request class for which scores were NOT computed before /repo 8218789 / a5f1a65 (sort
+/// without _score, query without custom scoring, explain off): every hit carried 0.  Used only to
+/// classify a recurrence of the repaired findings.
+pub fn legacy_score_mode_off(req: &Value) -> bool {
+  !(plan_json(&req["sort"]).as_array().map(|a| a.iter().any(|p| p["f"] == "score")).unwrap_or(false) || has_hook(&req["query"]) || req["explain"].as_bool().unwrap_or(false))
 }
 
-/// the matching documents with their *true* scores for the model: the ranking request itself
-/// when it computes scores, else the same request with `explain` (which forces score computation)
-pub fn raw_scores(reader: &IndexReader, ranking: &Value, seen: &SearchResult) -> Result<Vec<(String, f32)>, String> {
-  if scores_computed(ranking) {
-    return Ok(seen.hits.iter().map(|h| (h.doc_id.clone(), h.score)).collect());
-  }
-  let mut r = ranking.clone();
-  r["explain"] = json!(true);
-  let res = run(reader, &r)?;
-  Ok(res.hits.iter().map(|h| (h.doc_id.clone(), h.score)).collect())
+/// the matching documents with their scores for the model: since /repo 8218789 scores are always
+/// computed, so they are the scores of the ranking run itself (same sort, same flags)
+pub fn raw_scores(_reader: &IndexReader, _ranking: &Value, seen: &SearchResult) -> Result<Vec<(String, f32)>, String> {
+  Ok(seen.hits.iter().map(|h| (h.doc_id.clone(), h.score)).collect())
 }
 
 /// structural equality of two JSON values with numbers compared by the float rule (DESIGN §3.5)
